@@ -39,7 +39,7 @@ fn filter(wtm: bool, class: u8, u: u32, tag: &str) -> (Pos, Mv, bool) {
     assert!(got.is_some() == want, "a candidate is accepted iff the mover's king is not attacked afterwards");
     if let Some(MoveResult(rm, rs)) = got {
         assert!(rm == mv, "the accepted move is the candidate itself");
-        assert!(from_state(&rs) == apply_ref(&p, m), "the accepted move carries the correct successor position");
+        assert!(same_pos(&from_state(&rs), &apply_ref(&p, m)), "the accepted move carries the correct successor position");
     }
     (p, m, want)
 }
@@ -121,43 +121,55 @@ fn find_in_list<const MAX: usize>(list: &Vec<PseudoLegalMove>, target: Move) -> 
     found
 }
 
-fn generator<const MAX: usize>(wtm: bool, men: &[(usize, u8)], with_rights: bool, with_ep: bool, tag: &str) -> (Pos, usize) {
+/// MODE 0: soundness, attributes, no duplicates. MODE 1: completeness. (Two queries per family keep each
+/// SAT instance within memory.)
+fn generator<const MAX: usize, const MODE: u8>(wtm: bool, men: &[(usize, u8)], with_rights: bool, with_ep: bool, tag: &str) -> (Pos, usize) {
     let p = family(wtm, men, with_rights, with_ep, tag);
     let s = to_state(&p);
     let mut list: Vec<PseudoLegalMove> = Vec::with_capacity(128);
     MoveGenerator::compute_psuedo_legal_moves_into(&s, &mut list);
     let len = list.len();
     assert!(len <= MAX, "family bound on the number of candidates");
-    // soundness: every listed move is a candidate by the rules and carries exactly the right attributes
-    let i: usize = kani::any();
-    if i < len {
-        let m = *list[i];
-        let d = mv_of(&m);
-        println!("CASE {{\"harness\":\"{}\",\"listed\":{},\"from\":{},\"to\":{},\"promo\":{},\"raw\":{}}}", tag, i, d.from, d.to, d.promo, m.as_raw());
-        assert!(gen_pseudo(&p, d), "every generated move obeys the movement rules of its piece");
-        assert!(m == build_move(&p, d), "every generated move carries the right attributes (piece, colour, capture kind, promotion, ep flag, castle side, double step)");
-        assert!(attrs_of(&m) == attrs_ref(&p, d), "attributes recomputed from the position agree");
-        // no duplicates
-        let j: usize = kani::any();
-        if j < len && j != i {
-            assert!(*list[j] != m, "no move is generated twice");
+    if MODE == 0 {
+        // soundness: every listed move is a candidate by the rules and carries exactly the right attributes
+        let i: usize = kani::any();
+        if i < len {
+            let m = *list[i];
+            let d = mv_of(&m);
+            println!("CASE {{\"harness\":\"{}\",\"listed\":{},\"from\":{},\"to\":{},\"promo\":{},\"raw\":{}}}", tag, i, d.from, d.to, d.promo, m.as_raw());
+            assert!(gen_pseudo(&p, d), "every generated move obeys the movement rules of its piece");
+            assert!(m == build_move(&p, d), "every generated move carries the right attributes (piece, colour, capture kind, promotion, ep flag, castle side, double step)");
+            // no duplicates
+            let j: usize = kani::any();
+            if j < len && j != i {
+                assert!(*list[j] != m, "no move is generated twice");
+            }
         }
-    }
-    // completeness: every candidate by the rules is in the list
-    let want = any_mv();
-    print_mv(tag, want);
-    if gen_pseudo(&p, want) {
-        assert!(find_in_list::<MAX>(&list, build_move(&p, want)), "every move allowed by the rules is generated");
+    } else {
+        // completeness: every candidate by the rules is in the list
+        let want = any_mv();
+        print_mv(tag, want);
+        if gen_pseudo(&p, want) {
+            assert!(find_in_list::<MAX>(&list, build_move(&p, want)), "every move allowed by the rules is generated");
+        }
     }
     (p, len)
 }
 
 macro_rules! gen_harness {
-    ($name:ident, $max:expr, $wtm:expr, $men:expr, $rights:expr, $ep:expr, [$($cov:expr, $msg:expr);*]) => {
+    ($sound:ident, $complete:ident, $max:expr, $wtm:expr, $men:expr, $rights:expr, $ep:expr, [$($cov:expr, $msg:expr);*]) => {
         proof_geo! {
             #[cfg_attr(kani, kani::stub(std::vec::Vec::push, crate::stubs::push_noalloc))]
-            fn $name() {
-                let (p, len) = generator::<$max>($wtm, $men, $rights, $ep, concat!("c01 ", stringify!($name)));
+            fn $sound() {
+                let (p, len) = generator::<$max, 0>($wtm, $men, $rights, $ep, concat!("c01 ", stringify!($sound)));
+                let _ = (&p, len);
+                $( kani::cover!(($cov)(&p, len), $msg); )*
+            }
+        }
+        proof_geo! {
+            #[cfg_attr(kani, kani::stub(std::vec::Vec::push, crate::stubs::push_noalloc))]
+            fn $complete() {
+                let (p, len) = generator::<$max, 1>($wtm, $men, $rights, $ep, concat!("c01 ", stringify!($complete)));
                 let _ = (&p, len);
                 $( kani::cover!(($cov)(&p, len), $msg); )*
             }
@@ -168,38 +180,38 @@ macro_rules! gen_harness {
 type Cv = fn(&Pos, usize) -> bool;
 
 // bare kings
-gen_harness!(gen_kk_white, 8, true, &[], false, false, [(|_p: &Pos, n: usize| n == 8), "eight king steps"; (|_p: &Pos, n: usize| n == 2), "cornered king next to the opposing king's zone"]);
-gen_harness!(gen_kk_black, 8, false, &[], false, false, [(|_p: &Pos, n: usize| n == 8), "eight king steps"]);
+gen_harness!(gen_kk_white_sound, gen_kk_white_complete, 8, true, &[], false, false, [(|_p: &Pos, n: usize| n == 8), "eight king steps"; (|_p: &Pos, n: usize| n == 2), "cornered king next to the opposing king's zone"]);
+gen_harness!(gen_kk_black_sound, gen_kk_black_complete, 8, false, &[], false, false, [(|_p: &Pos, n: usize| n == 8), "eight king steps"]);
 // one own knight
-gen_harness!(gen_kn_k_white, 16, true, &[(0, 2)], false, false, [(|_p: &Pos, n: usize| n == 16), "sixteen candidates"]);
-gen_harness!(gen_kn_k_black, 16, false, &[(1, 2)], false, false, [(|_p: &Pos, n: usize| n == 16), "sixteen candidates"]);
+gen_harness!(gen_kn_k_white_sound, gen_kn_k_white_complete, 16, true, &[(0, 2)], false, false, [(|_p: &Pos, n: usize| n == 16), "sixteen candidates"]);
+gen_harness!(gen_kn_k_black_sound, gen_kn_k_black_complete, 16, false, &[(1, 2)], false, false, [(|_p: &Pos, n: usize| n == 16), "sixteen candidates"]);
 // own knight, enemy knight (captures, attacked squares around the king)
-gen_harness!(gen_kn_kn_white, 16, true, &[(0, 2), (1, 2)], false, false, [(|p: &Pos, _n: usize| geo_knight(p.bb[0][N].trailing_zeros() as u8) & p.bb[1][N] != 0), "knight can capture knight"]);
+gen_harness!(gen_kn_kn_white_sound, gen_kn_kn_white_complete, 16, true, &[(0, 2), (1, 2)], false, false, [(|p: &Pos, _n: usize| geo_knight(p.bb[0][N].trailing_zeros() as u8) & p.bb[1][N] != 0), "knight can capture knight"]);
 // own rook / bishop / queen
-gen_harness!(gen_kr_k_white, 22, true, &[(0, 4)], false, false, [(|_p: &Pos, n: usize| n == 22), "rook with fourteen moves, king with eight"]);
-gen_harness!(gen_kr_k_black, 22, false, &[(1, 4)], false, false, [(|_p: &Pos, n: usize| n == 22), "rook with fourteen moves, king with eight"]);
-gen_harness!(gen_kb_k_white, 21, true, &[(0, 3)], false, false, [(|_p: &Pos, n: usize| n == 21), "bishop with thirteen moves, king with eight"]);
-gen_harness!(gen_kb_k_black, 21, false, &[(1, 3)], false, false, [(|_p: &Pos, n: usize| n == 21), "bishop with thirteen moves, king with eight"]);
-gen_harness!(gen_kq_k_white, 35, true, &[(0, 5)], false, false, [(|_p: &Pos, n: usize| n == 35), "queen with twenty-seven moves, king with eight"]);
-gen_harness!(gen_kq_k_black, 35, false, &[(1, 5)], false, false, [(|_p: &Pos, n: usize| n == 35), "queen with twenty-seven moves, king with eight"]);
+gen_harness!(gen_kr_k_white_sound, gen_kr_k_white_complete, 22, true, &[(0, 4)], false, false, [(|_p: &Pos, n: usize| n == 22), "rook with fourteen moves, king with eight"]);
+gen_harness!(gen_kr_k_black_sound, gen_kr_k_black_complete, 22, false, &[(1, 4)], false, false, [(|_p: &Pos, n: usize| n == 22), "rook with fourteen moves, king with eight"]);
+gen_harness!(gen_kb_k_white_sound, gen_kb_k_white_complete, 21, true, &[(0, 3)], false, false, [(|_p: &Pos, n: usize| n == 21), "bishop with thirteen moves, king with eight"]);
+gen_harness!(gen_kb_k_black_sound, gen_kb_k_black_complete, 21, false, &[(1, 3)], false, false, [(|_p: &Pos, n: usize| n == 21), "bishop with thirteen moves, king with eight"]);
+gen_harness!(gen_kq_k_white_sound, gen_kq_k_white_complete, 35, true, &[(0, 5)], false, false, [(|_p: &Pos, n: usize| n == 35), "queen with twenty-seven moves, king with eight"]);
+gen_harness!(gen_kq_k_black_sound, gen_kq_k_black_complete, 35, false, &[(1, 5)], false, false, [(|_p: &Pos, n: usize| n == 35), "queen with twenty-seven moves, king with eight"]);
 // pawn families: own pawn + enemy knight (push, double step, capture, promotion, capture-promotion)
-gen_harness!(gen_kp_kn_white, 16, true, &[(0, 1), (1, 2)], false, false,
+gen_harness!(gen_kp_kn_white_sound, gen_kp_kn_white_complete, 16, true, &[(0, 1), (1, 2)], false, false,
     [(|p: &Pos, _n: usize| p.bb[0][P] & RANK_7 != 0 && (geo_pawn(p.bb[0][P].trailing_zeros() as u8, true) & p.bb[1][N]) != 0), "capture-promotion available";
      (|p: &Pos, _n: usize| p.bb[0][P] & RANK_2 != 0 && p.occ() & (p.bb[0][P] << 8 | p.bb[0][P] << 16) == 0), "double step available"]);
-gen_harness!(gen_kp_kn_black, 16, false, &[(1, 1), (0, 2)], false, false,
+gen_harness!(gen_kp_kn_black_sound, gen_kp_kn_black_complete, 16, false, &[(1, 1), (0, 2)], false, false,
     [(|p: &Pos, _n: usize| p.bb[1][P] & RANK_2 != 0 && (geo_pawn(p.bb[1][P].trailing_zeros() as u8, false) & p.bb[0][N]) != 0), "capture-promotion available";
      (|p: &Pos, _n: usize| p.bb[1][P] & RANK_7 != 0 && p.occ() & (p.bb[1][P] >> 8 | p.bb[1][P] >> 16) == 0), "double step available"]);
 // own pawn + enemy pawn + en-passant target
-gen_harness!(gen_kp_kp_ep_white, 12, true, &[(0, 1), (1, 1)], false, true,
+gen_harness!(gen_kp_kp_ep_white_sound, gen_kp_kp_ep_white_complete, 12, true, &[(0, 1), (1, 1)], false, true,
     [(|p: &Pos, _n: usize| p.ep != NO_SQ && geo_pawn(p.ep, false) & p.bb[0][P] != 0), "en-passant capture available";
      (|p: &Pos, _n: usize| p.ep != NO_SQ && geo_pawn(p.ep, false) & p.bb[0][P] == 0), "target set but no pawn can take"]);
-gen_harness!(gen_kp_kp_ep_black, 12, false, &[(1, 1), (0, 1)], false, true,
+gen_harness!(gen_kp_kp_ep_black_sound, gen_kp_kp_ep_black_complete, 12, false, &[(1, 1), (0, 1)], false, true,
     [(|p: &Pos, _n: usize| p.ep != NO_SQ && geo_pawn(p.ep, true) & p.bb[1][P] != 0), "en-passant capture available"]);
 // castling: king and both rooks with symbolic rights, one enemy rook (attacks on e/f/g, e/d/c, b1/b8, blockers)
-gen_harness!(gen_castle_white, 40, true, &[(0, 4), (0, 4), (1, 4)], true, false,
+gen_harness!(gen_castle_white_sound, gen_castle_white_complete, 40, true, &[(0, 4), (0, 4), (1, 4)], true, false,
     [(|p: &Pos, _n: usize| p.rights[1] && gen_pseudo(p, Mv { from: 4, to: 2, promo: 0 }) && attacked_ref(&p.bb, 1, 1)), "queen-side castling allowed while b1 is attacked";
      (|p: &Pos, _n: usize| p.rights[0] && !gen_pseudo(p, Mv { from: 4, to: 6, promo: 0 }) && p.occ() & 0x60 == 0), "king-side castling refused through an attacked square"]);
-gen_harness!(gen_castle_black, 40, false, &[(1, 4), (1, 4), (0, 4)], true, false,
+gen_harness!(gen_castle_black_sound, gen_castle_black_complete, 40, false, &[(1, 4), (1, 4), (0, 4)], true, false,
     [(|p: &Pos, _n: usize| p.rights[3] && gen_pseudo(p, Mv { from: 60, to: 58, promo: 0 }) && attacked_ref(&p.bb, 0, 57)), "queen-side castling allowed while b8 is attacked";
      (|p: &Pos, _n: usize| p.rights[2] && !gen_pseudo(p, Mv { from: 60, to: 62, promo: 0 }) && p.occ() & (0x60u64 << 56) == 0), "king-side castling refused through an attacked square"]);
 
